@@ -104,11 +104,13 @@ type Ctx struct {
 	Bounds        map[string]any
 	HarnessErrors []string
 
-	cands  map[string]*candidate
-	order  []string
-	known  []Finding
-	Thorough bool
-	Scratch  string
+	cands       map[string]*candidate
+	order       []string
+	known       []Finding
+	Thorough    bool
+	Slow        []slowJob
+	TotalMicros int64
+	Scratch     string
 }
 
 // Quick reports whether this is the quick tier.
@@ -347,6 +349,10 @@ func (c *Ctx) writeEvidence(nviol int, knownHit, inconclusive []string) {
 	if c.Pool != nil {
 		cov["worker_executions"] = c.Pool.Jobs
 		cov["worker_restarts"] = c.Pool.Restarts
+	}
+	if len(c.Slow) > 0 {
+		cov["slowest_executions"] = c.Slow
+		cov["worker_cpu_seconds"] = float64(c.TotalMicros) / 1e6
 	}
 	for k, v := range c.Extra {
 		cov[k] = v
